@@ -304,33 +304,75 @@ func (r *rewriter) rewriteFile(f *ast.File) {
 		}
 		return true
 	})
-	// 4. yield points before calls on the identifier "cache" (the LRU): Get/Add/Remove/Resize
+	// 4. yield points before calls on the identifier "cache" (the LRU): Get/Add/Peek/Remove/Resize, and before the operations of
+	// sync/atomic values (Load/Store/Swap/CompareAndSwap; Add on a field or variable named *Count/*count): an atomic operation
+	// is a synchronisation operation, the other threads may run before it. The test is syntactic; a yield before a call that is
+	// not an atomic operation after all is one more scheduling point and changes nothing else.
+	atomicOp := map[string]bool{"Load": true, "Store": true, "Swap": true, "CompareAndSwap": true}
 	astutil.Apply(f, nil, func(c *astutil.Cursor) bool {
 		st, ok := c.Node().(ast.Stmt)
 		if !ok || c.Index() < 0 {
 			return true
 		}
-		switch st.(type) {
-		case *ast.ExprStmt, *ast.AssignStmt:
+		// what is evaluated when control reaches the statement (not the bodies of compound statements)
+		var parts []ast.Node
+		switch x := st.(type) {
+		case *ast.ExprStmt, *ast.AssignStmt, *ast.ReturnStmt:
+			parts = []ast.Node{st}
+		case *ast.IfStmt:
+			if x.Init != nil {
+				parts = append(parts, x.Init)
+			}
+			parts = append(parts, x.Cond)
+		case *ast.SwitchStmt:
+			if x.Init != nil {
+				parts = append(parts, x.Init)
+			}
+			if x.Tag != nil {
+				parts = append(parts, x.Tag)
+			}
+			for _, cc := range x.Body.List {
+				for _, e := range cc.(*ast.CaseClause).List {
+					parts = append(parts, e)
+				}
+			}
 		default:
 			return true
 		}
 		found := ""
-		ast.Inspect(st, func(n ast.Node) bool {
-			if _, ok := n.(*ast.FuncLit); ok {
-				return false
-			}
-			if ce, ok := n.(*ast.CallExpr); ok {
-				if se, ok := ce.Fun.(*ast.SelectorExpr); ok {
-					if id, ok := se.X.(*ast.Ident); ok && id.Name == "cache" && r.yieldOn[se.Sel.Name] {
-						found = se.Sel.Name
+		for _, part := range parts {
+			ast.Inspect(part, func(n ast.Node) bool {
+				if _, ok := n.(*ast.FuncLit); ok {
+					return false
+				}
+				if ce, ok := n.(*ast.CallExpr); ok {
+					if se, ok := ce.Fun.(*ast.SelectorExpr); ok {
+						if id, ok := se.X.(*ast.Ident); ok && id.Name == "cache" && r.yieldOn[se.Sel.Name] {
+							found = "lru." + se.Sel.Name
+						} else if id, ok := se.X.(*ast.Ident); ok && (id.Name == "vs" || id.Name == "cache") {
+							// the scheduler's own entry points / other LRU calls
+						} else if atomicOp[se.Sel.Name] {
+							found = "atomic." + se.Sel.Name
+						} else if se.Sel.Name == "Add" {
+							var last string
+							switch y := se.X.(type) {
+							case *ast.Ident:
+								last = y.Name
+							case *ast.SelectorExpr:
+								last = y.Sel.Name
+							}
+							if strings.HasSuffix(last, "Count") || strings.HasSuffix(last, "count") {
+								found = "atomic.Add"
+							}
+						}
 					}
 				}
-			}
-			return true
-		})
+				return true
+			})
+		}
+		_ = found
 		if found != "" {
-			c.InsertBefore(&ast.ExprStmt{X: call(sel("vs", "Yield"), &ast.BasicLit{Kind: token.STRING, Value: strconv.Quote("lru." + found)})})
+			c.InsertBefore(&ast.ExprStmt{X: call(sel("vs", "Yield"), &ast.BasicLit{Kind: token.STRING, Value: strconv.Quote(found)})})
 		}
 		return true
 	})
@@ -398,7 +440,7 @@ func main() {
 			fatal("%v", err)
 		}
 		markComm(f)
-		r := &rewriter{fset: fset, file: name, chans: map[string]bool{}, yieldOn: map[string]bool{"Get": true, "Add": true, "Remove": true, "Resize": true}}
+		r := &rewriter{fset: fset, file: name, chans: map[string]bool{}, yieldOn: map[string]bool{"Get": true, "Add": true, "Peek": true, "Remove": true, "Resize": true}}
 		r.rewriteFile(f)
 		var buf bytes.Buffer
 		if err := format.Node(&buf, fset, f); err != nil {
